@@ -38,13 +38,56 @@ def b2s(a):
     return bytes(a).decode("latin1")
 
 
+def argtxt(tok):
+    """Lua source text of an argument token ('' = absent)."""
+    k = tok[0]
+    return {"nil": "", "xnil": "nil", "bad": "'x'"}.get(k) if k in ("nil", "xnil", "bad") else (
+        str(tok[1]) if k == "n" else str(tok[1] + 0.5) if k == "h" else "2^%d" % tok[1] if k == "big" else
+        "-2^%d" % tok[1] if k == "nbig" else "'%s'" % argtxt(tok[1]) if k == "str" else
+        str(tok[1]).lower() if k == "b" else repr(b2s(tok[1])))
+
+
+def arglist(*toks):
+    a = [argtxt(x) for x in toks]
+    while a and a[-1] == "":
+        a.pop()
+    return "".join(", " + (x or "nil") for x in a)
+
+
+INIT_FORMS = [["nil"], ["xnil"], ["n", 0], ["n", 2], ["n", -2], ["n", 100], ["n", -100], ["h", 1], ["h", -3],
+              ["str", ["n", 2]], ["str", ["h", 1]], ["str", ["n", -1]], ["big", 31], ["big", 53], ["nbig", 31],
+              ["nbig", 53], ["bad"], ["b", True]]
+PLAIN_FORMS = [["nil"], ["xnil"], ["b", False], ["b", True], ["n", 0], ["s", []], ["n", 1], ["s", [120]]]
+LIMIT_FORMS = [["nil"], ["xnil"], ["n", 0], ["n", -1], ["n", 1], ["n", 2], ["h", 1], ["h", 0], ["h", -1],
+               ["str", ["n", 2]], ["str", ["h", 1]], ["big", 31], ["big", 53], ["nbig", 31], ["str", ["big", 53]], ["bad"]]
+FAMILY_PAIRS = [(b"hello world", b"o"), (b"a.b.a", b"."), (b"abc", b""), (b"aXbXc", b"X%a*"), (b"x%ay%a", b"%a"),
+                (b"", b"a*")]
+
+
+def family_cases(first_id):
+    """The family of optional-argument forms: every form of init x every form of plain for find,
+    every form of init for match, every form of the limit for gsub (deterministic, not seeded)."""
+    out = []
+    for s, p in FAMILY_PAIRS:
+        base = {"s": list(s), "p": list(p), "i": ["nil"], "n": ["nil"], "repl": ["s", [45]]}
+        for i in INIT_FORMS:
+            for pl in PLAIN_FORMS:
+                out.append(dict(base, fn="find", i=i, pl=pl))
+            out.append(dict(base, fn="match", i=i))
+        for n in LIMIT_FORMS:
+            out.append(dict(base, fn="gsub", n=n))
+            out.append(dict(base, fn="gsub", n=n, repl=["t", [[["s", list(p)], ["s", [61]]]]]))
+    for k, c in enumerate(out):
+        c["id"] = first_id + k
+    return out
+
+
 def show(rec):
     """One-line rendering of a case for messages."""
     fn = rec["fn"]
     s, p = repr(b2s(rec["s"])), repr(b2s(rec["p"]))
     if fn in ("find", "match"):
-        i = rec.get("i") or ["nil"]
-        return "string.%s(%s, %s%s)" % (fn, s, p, ", %d" % i[1] if i[0] == "n" else "")
+        return "string.%s(%s, %s%s)" % (fn, s, p, arglist(rec.get("i") or ["nil"], rec.get("pl") or ["nil"]))
     if fn == "gmatch":
         return "string.gmatch(%s, %s)" % (s, p)
     if fn == "gmatchiter":
@@ -52,8 +95,7 @@ def show(rec):
             s, p, repr(b2s(rec["s2"])), p, rec["k"], *(("", "") if rec["mode"] == 0 else ("stA", "stB")))
     repl = rec["repl"]
     r = repr(b2s(repl[1])) if repl[0] == "s" else str(repl[1]) if repl[0] == "n" else ("<table %s>" if repl[0] == "t" else "<function over %s>") % json.dumps(repl[1])
-    n = rec.get("n") or ["nil"]
-    return "string.gsub(%s, %s, %s%s)" % (s, p, r, ", %d" % n[1] if n[0] == "n" else "")
+    return "string.gsub(%s, %s, %s%s)" % (s, p, r, arglist(rec.get("n") or ["nil"]))
 
 
 # ---------------------------------------------------------------------------
@@ -327,10 +369,18 @@ def gen_cases(rng, n):
         c["repl"] = ["s", []]
         if c["fn"] in ("find", "match") and rng.random() < 0.6:
             c["i"] = ["n", rng.randint(-len(subj) - 3, len(subj) + 4)]
+            if rng.random() < 0.25:     # other forms of the same optional argument
+                c["i"] = rng.choice([["xnil"], ["h", c["i"][1]], ["str", c["i"]], ["str", ["h", c["i"][1]]],
+                                     ["big", 31], ["big", 53], ["nbig", 53], ["bad"]])
+        if c["fn"] == "find":
+            c["pl"] = rng.choice(PLAIN_FORMS) if rng.random() < 0.15 else ["nil"]
         if c["fn"] == "gsub":
             c["repl"] = gen_repl(rng, subj)
             if rng.random() < 0.3:
                 c["n"] = ["n", rng.randint(-1, 4)]
+                if rng.random() < 0.3:
+                    c["n"] = rng.choice([["xnil"], ["h", c["n"][1]], ["str", c["n"]], ["big", 31], ["big", 53],
+                                         ["nbig", 31], ["bad"]])
         cases.append(c)
     return cases
 
@@ -406,7 +456,7 @@ def report(verd, key, rec, origin, total=None):
         json.dumps(exp)[:160], " [%d such cases in %s]" % (total, origin) if total else " [%s]" % origin)
     if rec.get("feat"):
         what += " {pattern features: %s}" % rec["feat"]
-    case = {k: rec[k] for k in ("fn", "s", "p", "i", "repl", "n", "s2", "k", "mode") if k in rec}
+    case = {k: rec[k] for k in ("fn", "s", "p", "i", "pl", "repl", "n", "s2", "k", "mode") if k in rec}
     verd.candidate(key, what, {"case": case, "observed": rec["o"], "reference": exp, "origin": origin,
                                "lua": show(rec)})
 
@@ -497,6 +547,7 @@ def random_direction(n, verd, stats, cov):
     t0 = time.time()
     rng = random.Random(vlib.seed() * 104729 + 14)
     cases = gen_cases(rng, n)
+    cases += family_cases(len(cases) + 1)
     recs, hang = observe(cases, "rand")
     if hang is not None:
         verd.candidate("C14:%s:hang" % hang.get("fn", "?"), "no result within the deadline: " + show(hang),
@@ -578,6 +629,7 @@ def run(tier):
         "exhaustive scope: pattern alphabet a b . % [ ] ^ $ ( ) * + - ? 1 d, init in -5..5 and absent, 7 replacement cases",
         "set scope: every '[' body ']' with body <= 4 (thorough 5) over ] ^ - + / % a (quick without /) x subjects of <= 1 byte around the range bounds",
         "escape scope: '%x' and 4 (thorough 6) shapes around it, outside and inside sets, for x = all letters but f, digits, punctuation, control and high bytes (thorough: every byte 1..255 but f) x subjects of <= 1 byte containing x and its other-case twin",
+        "optional-argument family (every run, 1164 calls): init of find/match and the gsub limit absent / nil / 0 / negative / beyond the length / fraction / numeric string / +-2^31 / +-2^53 / non-numeric, plain flag of find absent / nil / false / true / 0 / '' / 1 / 'x'; fractions are truncated towards zero (C cast of luaL_optinteger on LP64), a limit of 2^e admits both 'all' and 'none' (implementation-defined (int) cast)",
         "random scope: patterns <= 40 bytes, subjects <= 24 bytes, <= 4 captures, <= 4 quantifiers",
         "a malformed pattern/replacement may give a Lua error, no match, or the reference result",
         "error message texts are not compared",
